@@ -179,7 +179,20 @@ func rangeOmap(fr *frame, m *omap) iter {
 	it.vals = append([]value{}, m.vals...)
 	if fr.i.ps != nil && fr.i.ps.PermMaps && n >= 2 && permutable(fr) {
 		if n > fr.i.maxPerm {
-			panic(unsupported(fmt.Sprintf("map-order exploration over %d entries (max %d) in %s", n, fr.i.maxPerm, fr.fn)))
+			// too many entries for all n! orders: a stated sample of three orders (insertion
+			// order, its reverse, rotation by one) - every pair of entries is visited in both
+			// relative orders
+			switch fr.choose(3) {
+			case 1:
+				for a, b := 0, n-1; a < b; a, b = a+1, b-1 {
+					it.keys[a], it.keys[b] = it.keys[b], it.keys[a]
+					it.vals[a], it.vals[b] = it.vals[b], it.vals[a]
+				}
+			case 2:
+				it.keys = append(it.keys[1:], it.keys[0])
+				it.vals = append(it.vals[1:], it.vals[0])
+			}
+			return it
 		}
 		permute(fr, it.keys, it.vals)
 	}
